@@ -8044,6 +8044,9 @@ class IdentifierPreparer:
                     "schema_translate_map dictionaries."
                 )
 
+            # alias the None key for the "_none" placeholder in a copy;
+            # the caller's dictionary is not to be modified
+            d = dict(d)
             d["_none"] = d[None]  # type: ignore[index]
 
         def replace(m):
